@@ -105,7 +105,10 @@ def loadtxt(
         with open(fname) as src:
             header = src.readline()
     else:
+        # only peek: the line is data when the file has no header
+        start = fname.tell()
         header = fname.readline()
+        fname.seek(start)
     if isinstance(header, bytes):
         header = header.decode("utf-8")
 
